@@ -199,6 +199,8 @@ def target_base(dest, src, no_target_dir):
             return b"/"
         if lc == b".":
             return dest if dest else b"."
+        if lc == b"..":
+            return dest          # like cp: dir/.. goes into the destination itself, never into dest/..
         return rust_join(dest, (lc,))
     return dest
 
